@@ -826,6 +826,79 @@ def s_is_some(pos):
     return h
 
 
+def s_try_branch(ex, p, callee, argv, lhs):
+    """<Option<T> as Try>::branch (the `?` operator): ControlFlow::Continue(v) for Some(v), Break(None) otherwise"""
+    o = argv[0]
+    if o[0] != "agg":
+        raise Unsupported("Try::branch on a non-aggregate")
+    d = ex.read_cell(p, o[1], o[2] + ("discr",), "isize")
+    r, pa, _ = ex.place(p, parse_place(lhs))
+    ex.write(p, r, pa + ("discr",), ("bv", "(ite (= %s %s) %s %s)" % (d[1], bvconst(1), bvconst(0), bvconst(1)), 64))
+    ex.write(p, r, pa + (("as", "Continue"), 0), ex.read_cell(p, o[1], o[2] + (("as", "Some"), 0), "usize"))
+
+
+def s_from_residual_none(ex, p, callee, argv, lhs):
+    r, pa, _ = ex.place(p, parse_place(lhs))
+    ex.write(p, r, pa + ("discr",), ("bv", bvconst(0), 64))
+
+
+def s_nonnull_new(ex, p, callee, argv, lhs):
+    """NonNull::new(ptr) -> Option<NonNull>: Some(ptr) iff ptr is not null"""
+    a = ex.as_bv(argv[0])
+    r, pa, _ = ex.place(p, parse_place(lhs))
+    ex.write(p, r, pa + ("discr",), ("bv", "(ite (= %s %s) %s %s)" % (a[1], bvconst(0), bvconst(0), bvconst(1)), 64))
+    ex.write(p, r, pa + (("as", "Some"), 0), a)
+
+
+def s_unwrap_or_else(ex, p, callee, argv, lhs):
+    """Option/Result::unwrap_or_else(closure): the payload on Some/Ok, otherwise the closure of this crate is executed
+    (inlined). A scalar receiver (NonNull::new(..) is summarised as its pointer) is passed through."""
+    o = argv[0]
+    if o[0] != "agg":
+        ex.set_ret(p, lhs, o)
+        return None
+    is_res = callee.startswith("Result::") or "Result::<" in callee
+    d = ex.read_cell(p, o[1], o[2] + ("discr",), "isize")
+    good = "(= %s %s)" % (d[1], bvconst(0 if is_res else 1))
+    okp = p.clone()
+    okp.pc.append(good)
+    var = "Ok" if is_res else "Some"
+    pay = o[2] + (("as", var), 0)
+    structured = any(k[0] == o[1] and k[1][:len(pay)] == pay and len(k[1]) > len(pay) for k in list(okp.cells) + list(okp.links))
+    ex.set_ret(okp, lhs, ("agg", o[1], pay) if structured else ex.read_cell(okp, o[1], pay, "usize"))
+    bad = p
+    bad.pc.append("(not %s)" % good)
+    m = re.search(r"\{closure@([^}]*)\}", callee)
+    clo = None
+    if m and ex.fns:
+        hits = [f for f in ex.fns if f.args and ("closure@" + m.group(1)) in f.args[0][1]]
+        clo = hits[0] if len(hits) == 1 else None
+    if clo is None or clo.has_loop():
+        raise Unsupported("unwrap_or_else with a closure that cannot be resolved: " + callee)
+    Exec.INLINE_IDS[0] += 1
+    sub = Exec(clo, ex.summaries, ex.max_paths)
+    sub.lroot = "L%d:" % Exec.INLINE_IDS[0]
+    sub.fns, sub.depth, sub.counter = ex.fns, ex.depth + 1, ex.counter + 1
+    if hasattr(ex, "vec_root"):
+        sub.vec_root = ex.vec_root
+    sub.write(bad, sub.lroot + clo.args[0][0], (), ("unit",))
+    if len(clo.args) > 1:
+        epay = o[2] + (("as", "Err"), 0)
+        sub.write(bad, sub.lroot + clo.args[1][0], (), ex.read_cell(bad, o[1], epay, "usize"))
+    outs = [okp]
+    for q in sub.run(init=bad):
+        ex.counter = max(ex.counter, sub.counter)
+        if q.outcome is not None and q.outcome[0] == "return":
+            q.outcome = None
+            r0 = sub.lroot + "_0"
+            v = q.cells.get((r0, ()))
+            if v is None:
+                v = ("agg", r0, ())
+            ex.set_ret(q, lhs, v)
+        outs.append(q)
+    return outs
+
+
 def s_bound(which):
     def h(ex, p, callee, argv, lhs):
         r, pa, _ = ex.place(p, parse_place(lhs))
@@ -1087,12 +1160,14 @@ SUMMARIES = [
     (r"alloc::dealloc$", s_alloc("dealloc")),
     (r"alloc::realloc$", s_alloc("realloc")),
     (r"NonNull::<.*>::as_ptr$|NonNull::<.*>::new_unchecked$|NonNull::<.*>::cast", s_passthrough),
-    (r"NonNull::<.*>::new$", s_fresh("nonnull_new")),
+    (r"NonNull::<.*>::new$", s_nonnull_new),
+    (r"<Option<.*> as (core::ops::)?Try>::branch$", s_try_branch),
+    (r"<Option<.*> as (core::ops::)?FromResidual<.*>>::from_residual$", s_from_residual_none),
     (r"mem::dangling$", s_dangling_helper),
     (r"NonNull::<.*>::dangling$", s_nonnull_dangling),
     (r"<impl usize>::is_power_of_two$", s_is_pow2),
     (r"<impl usize>::trailing_zeros$", s_trailing_zeros),
-    (r"unwrap_or_else", s_fresh("unwrap_or_else")),
+    (r"unwrap_or_else", s_unwrap_or_else),
     (r"MaybeUninit::<.*>::uninit$", s_fresh("uninit")),
     (r"Arguments::<.*>::from_str$|Arguments::<.*>::new_const|Arguments::<.*>::new_v1", s_fresh("fmt_args")),
     (r"AnyVec::<.*>::get_unchecked(_mut)?$", s_event("get_unchecked")),
